@@ -1,1 +1,120 @@
-def main : IO Unit := IO.println "driver C11: not built yet"
+import VncModel.Basic.Proto
+import VncModel.Region.Model
+/-! Line-protocol driver for the region model (C11).  Same script as harness/c11.c.
+
+Registers r0..r63 hold regions (initially empty).  Every region-modifying op prints its result
+followed by `= <dump>` of the destination register; `<dump>` is `n x1,y1,x2,y2 ...` (the forward
+iteration) when `n ≤ 24` or verbose mode is on, else `n #<hash>` (hash of the same sequence). -/
+open VncModel VncModel.Rgn VncModel.Proto
+
+structure DState where
+  regs : Array Region := Array.replicate 64 []
+  verbose : Bool := false
+
+def reg? (s : String) : Option Nat :=
+  if s.startsWith "r" then
+    match (s.drop 1).toString.toNat? with
+    | some n => if n < 64 then some n else none
+    | none => none
+  else none
+
+def showRect (r : Rect) : String := s!"{r.x1},{r.y1},{r.x2},{r.y2}"
+
+def hashInt (h : UInt64) (v : Int) : UInt64 :=
+  (h ^^^ UInt64.ofNat (v + 4294967296).toNat) * 1099511628211
+
+def hashRects (l : List Rect) : UInt64 :=
+  l.foldl (fun h r => hashInt (hashInt (hashInt (hashInt h r.x1) r.y1) r.x2) r.y2) 1469598103934665603
+
+def showRects (verbose : Bool) (l : List Rect) : String :=
+  let n := l.length
+  if n ≤ 24 || verbose then
+    l.foldl (fun acc r => acc ++ " " ++ showRect r) (toString n)
+  else s!"{n} #{(hashRects l).toNat}"
+
+def dump (st : DState) (r : Region) : String := showRects st.verbose (r.rects false false)
+
+def b01 (b : Bool) : String := if b then "1" else "0"
+
+def flag? (s : String) : Option Bool := if s = "1" then some true else if s = "0" then some false else none
+
+def ints? (l : List String) : Option (List Int) := l.mapM parseInt?
+
+def dstep (st : DState) (toks : List String) : DState × List String :=
+  let bad := (st, ["bad-op"])
+  let get (i : Nat) : Region := st.regs[i]!
+  let set (i : Nat) (r : Region) (pre : String) : DState × List String :=
+    ({ st with regs := st.regs.set! i r }, [pre ++ " = " ++ dump st r])
+  match toks with
+  | ["verbose", v] =>
+    match flag? v with
+    | some b => ({ st with verbose := b }, ["ok"])
+    | none => bad
+  | ["mk", d, a, b, c, e] | ["mkraw", d, a, b, c, e] =>
+    -- `mkraw` is kept as an alias: sraRgnCreateRect is total (empty region for empty rectangles)
+    match reg? d, ints? [a, b, c, e] with
+    | some d, some [x1, y1, x2, y2] => set d (Region.rect x1 y1 x2 y2) "ok"
+    | _, _ => bad
+  | ["empty", d] =>
+    match reg? d with
+    | some d => set d Region.empty "ok"
+    | none => bad
+  | ["dup", d, s] =>
+    match reg? d, reg? s with
+    | some d, some s => set d (Region.dup (get s)) "ok"
+    | _, _ => bad
+  | ["or", d, s] =>
+    match reg? d, reg? s with
+    | some d, some s => set d (Region.or (get d) (get s)) "ok"
+    | _, _ => bad
+  | ["and", d, s] =>
+    match reg? d, reg? s with
+    | some d, some s => let r := Region.and (get d) (get s); set d r.1 (b01 r.2)
+    | _, _ => bad
+  | ["sub", d, s] =>
+    match reg? d, reg? s with
+    | some d, some s => let r := Region.sub (get d) (get s); set d r.1 (b01 r.2)
+    | _, _ => bad
+  | ["offset", d, dx, dy] =>
+    match reg? d, ints? [dx, dy] with
+    | some d, some [dx, dy] => set d (Region.offset (get d) dx dy) "ok"
+    | _, _ => bad
+  | ["bbox", d, s] =>
+    match reg? d, reg? s with
+    | some d, some s => set d (Region.bbox (get s)) "ok"
+    | _, _ => bad
+  | ["pop", d, f] =>
+    match reg? d, f.toNat? with
+    | some d, some f =>
+      let r := Region.popRect (get d) f
+      match r.2 with
+      | none => set d r.1 "0"
+      | some rc => set d r.1 ("1 " ++ showRect rc)
+    | _, _ => bad
+  | ["count", s] =>
+    match reg? s with
+    | some s => (st, [toString (Region.countRects (get s))])
+    | none => bad
+  | ["isempty", s] =>
+    match reg? s with
+    | some s => (st, [b01 (Region.isEmpty (get s))])
+    | none => bad
+  | ["iter", s, rx, ry] =>
+    match reg? s, flag? rx, flag? ry with
+    | some s, some rx, some ry => (st, [showRects st.verbose ((get s).rects rx ry)])
+    | _, _, _ => bad
+  | ["clip", a, b, c, d, e, f, g, h] =>
+    match ints? [a, b, c, d, e, f, g, h] with
+    | some [x, y, w, h, cx, cy, cw, ch] =>
+      let r := clipRect x y w h cx cy cw ch
+      (st, [s!"{b01 r.2.2.2.2} {r.1} {r.2.1} {r.2.2.1} {r.2.2.2.1}"])
+    | _ => bad
+  | ["clip2", a, b, c, d, e, f, g, h] =>
+    match ints? [a, b, c, d, e, f, g, h] with
+    | some [x, y, x2, y2, cx, cy, cx2, cy2] =>
+      let r := clipRect2 x y x2 y2 cx cy cx2 cy2
+      (st, [s!"{b01 r.2.2.2.2} {r.1} {r.2.1} {r.2.2.1} {r.2.2.2.1}"])
+    | _ => bad
+  | _ => bad
+
+def main : IO Unit := runDriver ({} : DState) dstep
